@@ -248,8 +248,12 @@ def main(seed, tier):
     return common.finish(
         "C06", results, t0, seed, tier,
         extra_cov=dict(countries_with_algorithm=N.COUNTRIES_22, countries_without=len(ccs) - 1 - len(N.COUNTRIES_22),
-                       sandwich_bands=["NO (account numbers whose 5th/6th digits are 00: unspecified)"]),
+                       sandwich_bands=[]),
         assumptions=["A10 the published national rules are as transcribed in contracts/national.py",
+                     "NO, account numbers whose 5th and 6th digits are 00: the rule 'the bank identifier is left out of "
+                     "the sum' (weights 5,4,3,2 over the last four account digits) is the library's documented reading; "
+                     "it could not be re-read from an independent source offline and is taken as the published rule "
+                     "(earlier versions of this check left these accounts unspecified and were blind to changes there)",
                      "contract of common.clean (Clean(s)=s for clean s) and of checksum.numerify (=Num) are verified "
                      "by their own tasks (C10 / numerify tasks)",
                      "contract of BBAN.bank (None or a registry entry of the BBAN's country) is proved under C12; "
